@@ -355,6 +355,18 @@ def run(tier, seed):
             if vals != [float(k + 1), float(k + 11)]:
                 ofail.append({"config": etext, "lines": [], "file": fn, "real_rows": [str(v) for v in vals], "expected_points": [str(float(k + 1)), str(float(k + 11))],
                               "tag": {"kind": "attribution"}})
+    # lines that match nothing — empty, blank, padded — between the matching ones: every matching line still counts
+    gaps = ("role meter\n  :wait sleep 0.8\n"
+            "  spotlight echo \"v=1\"; echo; echo \"v=2\"; echo \"   \"; echo \"  v=3  \"; echo; echo; printf \"\\t\\n\"; echo \"v=4\"; echo \"noise\"; echo \"v=5\"; sleep 30\n"
+            "  signal v scalar at ^(?P<ts_now>)v=(?P<scalar>\\d+)$\nend\ncast\n  m plays meter\nend\nscript\n  tempo 100ms\n"
+            "  scene w entails for m: wait\n  storyline w\nend\naudience\n  obs watches m v\nend\n")
+    for er in e2e.run_many([e2e.Play(gaps, timeout=30) for _ in range(2 if tier == "quick" else 5)], workers=4):
+        rep.count("e2e-spotlight-plays with blank lines")
+        vals = [float(l.split()[1]) for l in er["csv"].get("obs.m.v.csv", "").splitlines() if len(l.split()) >= 2]
+        if vals != [1.0, 2.0, 3.0, 4.0, 5.0]:
+            ofail.append({"config": gaps, "lines": [], "file": "obs.m.v.csv", "real_rows": [str(v) for v in vals],
+                          "expected_points": ["1", "2", "3", "4", "5"], "tag": {"kind": "lines-after-blank-lines"},
+                          "problem": "the spotlight prints empty and blank lines between its samples: every sample must still be recorded"})
     # a dropped line leaves no trace: no data point, and no audit round at its time stamp either (an observer of `t`
     # sees one row per round)
     for badline, why in (("100 t0=oops", "malformed number"), ("100 t0=", "empty number"), ("100 t0=1e", "truncated exponent")):
